@@ -2,11 +2,11 @@ SPECIFICATION MCSpec
 CONSTANTS
   Stages = 2
   AccEvals = 1
-  DenseEvals = 1
-  CountRule = "hairer"
-  HasHinit = TRUE
-  HasSmall = TRUE
-  StiffEvery = 2
+  DenseEvals = 0
+  CountRule = "scipy"
+  HasHinit = FALSE
+  HasSmall = FALSE
+  StiffEvery = 0
   StiffLimit = 2
   NonStiffReset = 2
   Metric = TRUE
